@@ -44,6 +44,14 @@ CLAIMED = {
   text="Update.tla models the update protocol at burst granularity (call start, channel-mutex hand-over, stage/sign/send, delivery, handler answer, accept/reject, response cache of the channel relay, cancelled/expired contexts); TLC checks the five C06 formulas exhaustively on the design and simulates behaviours, each of which is replayed on two real clients (one or two channels of the pair, steps interleaved) in a synctest bubble with a scheduled bus, strict ledger, recording persisters and scripted handlers. The verdict comes from property monitors on the real observations after every environment step; the comparison with the detailed model is reported as conformance drift.",
   note="Trusted: TLC, synctest quiescence, harness environment. Bounds: 2 honest clients, versions <= 3, <= 2-3 Update calls per party, no lost/duplicated envelopes; behaviours are sampled by TLC simulation (800 quick / 30000 thorough), the design check is exhaustive.", ref="5/C06",
   technique="explicit TLA+ spec (Update.tla) model-checked by TLC; TLC-simulated schedules replayed on two real clients with scheduled message delivery; property monitors + step-wise conformance"),
+ "C03": dict(
+  text="Settle.tla models the life of a ledger channel on the strict reference ledger (funding agreement, accepted/rejected payments in both directions, updates held in flight, optional paying final update, either side settling first - cooperatively or through registration and the challenge period); TLC checks Conservation and HonestPayout exhaustively and dumps the graph. Every edge is replayed after its shortest path, plus TLC-simulated behaviours, on two honest real clients in synctest bubbles; monitors on the real strict ledger: funding takes exactly the agreed amounts, conservation at every step, after both settled each account = deposit - funding + balance in the last state both signed, nothing remains held.",
+  note="Trusted: TLC, synctest virtual time, the harness' strict ledger (signature/version/time-out/registered-state checks) as stand-in for the contracts. Bounds: 2 parties, 1 asset, versions <= 2 (3 thorough); sub-channel open/close is not part of the scenarios yet (DESIGN.md, limits).", ref="5/C03",
+  technique="explicit TLA+ spec (Settle.tla), TLC exhaustive state graph + simulation, behaviours replayed on two real clients against a strict reference ledger with money monitors"),
+ "C04": dict(
+  text="Settle.tla in adversary mode: party B additionally registers EVERY earlier fully signed version directly on the ledger at every point of every history (also at each stage of an update in flight, and interleaved with the delivery of the response and the ledger's event emission) and concludes after the challenge period; A is an unmodified client that only watches (real local.Watcher on the ledger's subscription). TLC checks the formulas on the design; every edge of the graph and TLC-simulated behaviours are replayed on real clients; monitor on the real ledger: once A has settled its account is at least its balance in the newest state ever enabled at A (and conservation).",
+  note="Trusted as for C03. The adversary deviates only by registering/concluding earlier signed states; its client runs no refuting watcher. One genuine defect is recorded as known finding (registration while an update proposed by the honest client is in flight).", ref="5/C04",
+  technique="explicit TLA+ spec (Settle.tla, adversary mode), TLC exhaustive state graph + simulation, behaviours replayed on real clients with the real watcher against a strict reference ledger"),
 }
 NA_REASON = "check not built yet (work in progress, see DESIGN.md section 11); not a statement that the technique cannot apply"
 checks = []
